@@ -140,7 +140,8 @@ func VerifC17_CloneIndependent() {
 	if hasProp {
 		c.AddEphemeralProperty("prop", 7)
 	}
-	c.SetTimeout(time.Duration(verifChoice(3)) * 1500 * time.Millisecond)
+	// whole and fractional milliseconds: the wire carries whole milliseconds only
+	c.SetTimeout([]time.Duration{0, 1500 * time.Millisecond, 3 * time.Second, 2500 * time.Microsecond, time.Nanosecond, time.Second + time.Nanosecond}[verifChoice(6)])
 
 	var cl FContext
 	switch verifParam() {
